@@ -33,6 +33,7 @@ type HarnessSpec struct {
 	Thorough []ParamRange
 	Filter   func(p map[string]int) bool
 	Reach    []string // vReach tags that must be hit by at least one job (vacuity guard)
+	ReachThorough []string // additional tags required in the thorough tier
 	Desc     string
 	MaxVisits int
 }
@@ -316,7 +317,11 @@ func (c *checker) run() int {
 		if c.only != "" && !strings.Contains(h.Name, c.only) {
 			continue
 		}
-		for _, tag := range h.Reach {
+		tags := h.Reach
+		if c.tier == "thorough" {
+			tags = append(append([]string{}, tags...), h.ReachThorough...)
+		}
+		for _, tag := range tags {
 			if reached[h.Name] == nil || reached[h.Name][tag] == nil {
 				c.inconclusive("vacuity: harness %s never reaches %q", h.Name, tag)
 				continue
